@@ -21,8 +21,8 @@ var valueExpr = map[string]string{"int": "7", "string": `"s"`, "array": "[1]", "
 
 // Op: instantiate a generic class (I) or write a typed member of a live instance (W).
 type Op struct {
-	K     string   `json:"k"`             // I | W
-	Inst  int      `json:"inst"`          // instance number
+	K     string   `json:"k"`               // I | W
+	Inst  int      `json:"inst"`            // instance number
 	Class string   `json:"class,omitempty"` // G1 (one parameter) | G2 (two parameters)
 	Args  []string `json:"args,omitempty"`
 	Mem   string   `json:"mem,omitempty"` // p (G1 property) | set (G1 method parameter) | a | b (G2 properties)
@@ -368,7 +368,7 @@ var prop = &hx.Prop{
 	Components: map[string]string{
 		"parser (generic class syntax), node.ClassGeneric / NewClassGenerated / typed property store / parameter checks, spawn": "real (instrumented copy of /repo)",
 		"coroutine scheduling (concurrent mode)": "simulated (seeded scheduler, statement-granular preemption)",
-		"oracles": "metamorphic: every instance's accept/reject vector in the history equals its vector when it is the only instantiation on a fresh VM; differential: equals what a non-generic class declared with the concrete type accepts",
+		"oracles":                                "metamorphic: every instance's accept/reject vector in the history equals its vector when it is the only instantiation on a fresh VM; differential: equals what a non-generic class declared with the concrete type accepts",
 	},
 }
 
